@@ -78,6 +78,7 @@ func (ln *listener) Accept() (net.Conn, error) {
 		}
 		return nil, err
 	}
+	vp(vpFdOpen, nil, int64(fd), 1)
 	nfd := &netFD{}
 	nfd.fd = fd
 	nfd.localAddr = ln.addr
@@ -89,9 +90,11 @@ func (ln *listener) Accept() (net.Conn, error) {
 // Close implements Listener.
 func (ln *listener) Close() error {
 	if ln.fd != 0 {
+		vp(vpFdClose, nil, int64(ln.fd), 2)
 		syscall.Close(ln.fd)
 	}
 	if ln.file != nil {
+		vp(vpFdClose, nil, int64(ln.fd), 3)
 		ln.file.Close()
 	}
 	if ln.ln != nil {
@@ -123,5 +126,6 @@ func (ln *listener) parseFD() (err error) {
 		return err
 	}
 	ln.fd = int(ln.file.Fd())
+	vp(vpFdOpen, nil, int64(ln.file.Fd()), 3)
 	return nil
 }
